@@ -292,6 +292,13 @@ def write_evidence(prop, tier, seed, obs, sym_results, nat_results, conf, violat
     all_proved = n_units > 0 and n_dis == n_units and not any(o.kind == 'bounded' for o in obs) and n_viol == 0
     # level: proof only when every deductive unit is discharged in this run; bounded parts are listed separately
     level = 'proof' if (n_units > 0 and n_dis == n_units) else 'other'
+    try:        # a property whose claimed level is `other` (deductive core + bounded parts) never reports `proof`
+        man = json.load(open(os.path.join(ROOT, 'MANIFEST.json')))
+        claimed = {c['property_id']: c['level_claimed']['category'] for c in man['checks']}.get(prop)
+        if claimed and claimed != 'proof':
+            level = 'other'
+    except Exception:
+        pass
     cov = {
         'obligations': n_units,
         'discharged': n_dis,
